@@ -42,6 +42,9 @@ type Scenario struct {
 	// Register > 0: no HTTP; that many rounds of addTrData for the tracks (Media gives the content type)
 	// called from one goroutine per track, released by a barrier, on a fresh channel each round
 	Register int `json:"register,omitempty"`
+	// Receiving > 0: no HTTP; that many rounds in which the first track sends chunk messages to the channel
+	// goroutine while the other tracks register (and re-register), each round under a watchdog
+	Receiving int `json:"receiving,omitempty"`
 }
 
 type Outcome struct {
@@ -57,6 +60,7 @@ type Outcome struct {
 	TrIDs      map[string][]string `json:"trids"`
 	// Register scenarios: number of rounds per (master, keys, trIDs) outcome
 	RegOutcomes map[string]int `json:"reg_outcomes,omitempty"`
+	Hangs       int            `json:"hangs,omitempty"` // Receiving scenarios: rounds that did not finish
 }
 
 const testdata = "/repo/cmd/cmaf-ingest-receiver/app/testdata/"
@@ -210,6 +214,26 @@ func main() {
 		first, _ = strconv.Atoi(os.Args[2])
 	}
 	for si := first; si < len(scs); si++ {
+		if scs[si].Receiving > 0 {
+			fmt.Fprintf(os.Stderr, "@@ scenario %d receiving\n", si)
+			var names, types []string
+			for _, t := range scs[si].Tracks {
+				names = append(names, t.Name)
+				types = append(types, t.Media)
+			}
+			o := Outcome{Scenario: si, RegOutcomes: map[string]int{}}
+			for r := 0; r < scs[si].Receiving && o.Hangs < 3; r++ {
+				ok, tt := app.VerifRegisterWhileReceiving(names, types, 300, 25, 3*time.Second)
+				if !ok {
+					o.Hangs++
+					continue
+				}
+				o.RegOutcomes[fmt.Sprintf("master=%s keys=%v", tt.Master, tt.Keys)]++
+			}
+			b, _ := json.Marshal(o)
+			fmt.Printf("@@O %s\n", b)
+			continue
+		}
 		if scs[si].Register > 0 {
 			fmt.Fprintf(os.Stderr, "@@ scenario %d register\n", si)
 			var names, types []string
